@@ -108,13 +108,14 @@ SInit ==
           /\ s2c' = s2c \o (IF FixLogsBeforeError THEN L0 ELSE <<>>) \o <<[t |-> "E"]>> \o (IF Http THEN <<>> ELSE <<[t |-> "Z"]>>)
           /\ srv' = [srv EXCEPT !.pc = "done", !.nl = n0]
      ELSE \* buffered messages are flushed into the first stream that opens: the header stream, else the output stream
-          LET pre == IF script.hdr THEN L0 \o <<[t |-> "H"]>> ELSE L0 IN
+          LET pre == IF script.hdr THEN L0 \o <<[t |-> "H"]>> ELSE L0
+              hev == IF script.hdr THEN <<E0("h")>> ELSE <<>> IN
           IF Http /\ Prod
           THEN LET st == StepOf(1) IN
-               /\ em' = em \o LogEvs(0, n0) \o TurnEm(st, n0, 0)
+               /\ em' = em \o LogEvs(0, n0) \o hev \o TurnEm(st, n0, 0)
                /\ s2c' = s2c \o pre \o TurnWire(st, n0, 0)
                /\ srv' = [AfterTurn(st) EXCEPT !.nl = n0 + st.pre + st.post]
-          ELSE /\ em' = em \o LogEvs(0, n0)
+          ELSE /\ em' = em \o LogEvs(0, n0) \o hev
                /\ s2c' = s2c \o pre \o (IF Http THEN <<[t |-> "K"]>> ELSE <<>>)
                /\ srv' = [srv EXCEPT !.pc = "loop", !.nl = n0]
   /\ UNCHANGED <<script, design, cli, rv>>
@@ -172,7 +173,7 @@ CSessionPipe ==
   /\ IF script.hdr
      THEN /\ s2c # <<>> /\ (Has(s2c, "H") \/ Has(s2c, "Z"))
           /\ IF Has(s2c, "H")
-             THEN /\ rv' = rv \o Deliver(Upto(s2c, "H"))
+             THEN /\ rv' = rv \o Deliver(Upto(s2c, "H")) \o <<Rv("H", 0)>>
                   /\ s2c' = SubSeq(s2c, Len(Upto(s2c, "H")) + 2, Len(s2c))
                   /\ cli' = [cli EXCEPT !.pc = "ready"]
              ELSE /\ rv' = rv \o Deliver(Upto(s2c, "E")) \o <<Rv("E", 0)>>
@@ -187,8 +188,8 @@ CSessionHttp ==
   /\ IF Has(s2c, "E")
      THEN /\ rv' = rv \o Deliver(Upto(s2c, "E")) \o <<Rv("E", 0)>>
           /\ cli' = [cli EXCEPT !.pc = "nosession", !.ended = TRUE]
-     ELSE /\ rv' = rv \o Deliver(s2c)
-          /\ cli' = [cli EXCEPT !.pc = "ready", !.pend = DataOf(s2c), !.tok = Has(s2c, "K"), !.fin = ~Has(s2c, "K")]
+     ELSE /\ rv' = rv \o Deliver(s2c) \o (IF script.hdr THEN <<Rv("H", 0)>> ELSE <<>>)     \* the session (and its header) is
+          /\ cli' = [cli EXCEPT !.pc = "ready", !.pend = DataOf(s2c), !.tok = Has(s2c, "K"), !.fin = ~Has(s2c, "K")]  \* handed over after all of /init
   /\ UNCHANGED <<script, design, c2s, srv, em>>
 
 CSkip ==
